@@ -45,6 +45,7 @@ def make_cfg(rng: random.Random, profile: str = "c12") -> dict:
         "p_ws_aim": 0.5,
         "p_layout": rng.choice([0.0, 0.0, 0.3]),   # Fortran-ordered / transposed-view coordinate arrays
         "p_mag": rng.choice([0.0, 0.0, 0.0, 0.2]),   # coordinates of magnitude 1e5..1e7 or 1e-4..1e-2
+        "p_poke": float(os.environ["GEOSIM_P_POKE"]) if os.environ.get("GEOSIM_P_POKE") else rng.choice([0.0, 0.05, 0.12]),   # the client edits a result it owns (Tensor.__setitem__)
     }
     warm = []
     if not cfg["cold_start"]:
